@@ -38,6 +38,7 @@ type btScenario struct {
 	Workers  int                  `json:"workers"`
 	Report   string               `json:"report"` // rec | data | html
 	LastDays int                  `json:"lastDays"`
+	Runs     int                  `json:"runs"` // 2: Run is called twice with the SAME report object; the second run is judged
 }
 
 type btCall struct {
@@ -204,6 +205,8 @@ func runBacktestScenario(sc *btScenario, tmp string) map[string]any {
 	var rep backtest.Report
 	var rec *recReport
 	var data *backtest.DataReport
+	var html *backtest.HTMLReport
+	gateNeed := 0
 	dir := filepath.Join(tmp, fmt.Sprintf("bt%d", sc.ID))
 	switch sc.Report {
 	case "rec":
@@ -230,6 +233,7 @@ func runBacktestScenario(sc *btScenario, tmp string) map[string]any {
 			need = len(sc.Assets)
 		}
 		h.Logger = slog.New(&gateHandler{need: int32(need)})
+		html, gateNeed = h, need
 		rep = h
 		defer os.RemoveAll(dir)
 	}
@@ -241,6 +245,18 @@ func runBacktestScenario(sc *btScenario, tmp string) map[string]any {
 	err := bt.Run()
 	if err != nil {
 		res["err"] = err.Error()
+	}
+	if sc.Runs == 2 && err == nil {
+		// a report object serves one run after another: what it holds / writes after the second run is that run's results
+		if html != nil {
+			html.Logger = slog.New(&gateHandler{need: int32(gateNeed)})
+		}
+		if rec != nil {
+			rec.calls = nil
+		}
+		if err = bt.Run(); err != nil {
+			res["err"] = "second run: " + err.Error()
+		}
 	}
 	if rec != nil {
 		res["log"] = rec.calls
